@@ -363,6 +363,7 @@ pub fn main(args: &Args) -> i32 {
         replay: 2,
         leave: 2,
         side: 5,
+        reinvite: true,
         ..Weights::default()
     };
     let spec = Spec {
